@@ -7,3 +7,15 @@ void sqf::runtime::frame::clear_values_helper(runtime& runtime)
 
     runtime.context_active().clear_values();
 }
+
+bool sqf::runtime::frame::abort_if_max_runtime_reached(runtime& runtime)
+{
+    if (runtime.configuration().max_runtime != std::chrono::milliseconds::zero() &&
+        runtime.configuration().max_runtime + runtime.run_start_timestamp() < std::chrono::system_clock::now())
+    {
+        runtime.__logmsg(logmessage::runtime::MaximumRuntimeReached(diag_info_from_position(), runtime.configuration().max_runtime));
+        runtime.exit(0);
+        return true;
+    }
+    return false;
+}
